@@ -823,6 +823,12 @@ func runC04(t *testing.T, rep *mc.Reporter) {
 		rep.Machinery("cannot load replay: "+err.Error(), nil)
 		return
 	} else if rp != nil {
+		if bscn, ok := c04bIsReplay(rp.Scenario); ok {
+			// family "bisync into a cluster" (c04b_test.go)
+			r, _ := c04bExec(t, bscn)
+			rep.Exec(bscn, rp.Choices, r)
+			return
+		}
 		var scn c04Scenario
 		if err := json.Unmarshal(rp.Scenario, &scn); err != nil {
 			rep.Machinery("bad replay scenario: "+err.Error(), nil)
@@ -833,7 +839,7 @@ func runC04(t *testing.T, rep *mc.Reporter) {
 	}
 	idx := 0
 	mine := func() bool { idx++; return idx%nshards == shard && !budget.Expired() }
-	// development aid: VERIF_C04_FAMILY=damage|fault|preempt restricts a run to one family
+	// development aid: VERIF_C04_FAMILY=damage|fault|preempt|cluster restricts a run to one family
 	// (never set by bin/check; evidence is always produced from the full enumeration)
 	only := os.Getenv("VERIF_C04_FAMILY")
 
@@ -1195,6 +1201,11 @@ func runC04(t *testing.T, rep *mc.Reporter) {
 				}
 			}
 		}
+	}
+	// ---- (e) bidirectional replay into a cluster: the only combination with the extra "global lane" task
+	// (function libraries / scripts fanned out to every primary); see c04b_test.go
+	if only == "" || only == "cluster" {
+		c04bEnumerate(t, rep, budget, tier, mine)
 	}
 	rep.Count("executions_leaving_a_blocked_goroutine", c04Leaks)
 	if budget.Expired() {
